@@ -90,7 +90,36 @@ fn rect_center_int<T: IntSc + num_traits::One + std::ops::Div<Output = T> + std:
         goal("law/Rect -> Aabr -> Rect round trip", and(vec![eq(back.x, r.x), eq(back.y, r.y), eq(back.w, r.w), eq(back.h, r.h)]));
     }
 }
+/// C13 at integer element types: centre, size and half size of a box, per axis, in the machine's truncating division
+/// (`half_size = size / 2` and `center = (min + max) / 2` are not interchangeable with each other there).
+fn box_measures_int<T: IntSc + num_traits::One + std::ops::Div<Output = T> + std::ops::Add<Output = T> + std::ops::Sub<Output = T>>(three: bool) {
+    use crate::vecs::VK;
+    use vek::geom::repr_c::{Aabb, Aabr};
+    use vek::vec::repr_c::{Vec2, Vec3};
+    set_int_mode();
+    set_range_assumed(); // overflow of min + max / max - min is the caller's business; the subject is which quantity is halved
+    let two = || T::one() + T::one();
+    let names = ["x", "y", "z"];
+    let n = if three { 3 } else { 2 };
+    let mn: Vec<T> = (0..n).map(|i| var::<T>(&format!("mn{}", names[i]))).collect();
+    let mx: Vec<T> = (0..n).map(|i| var::<T>(&format!("mx{}", names[i]))).collect();
+    let (c, s, h) = if three {
+        let b = Aabb { min: Vec3::new(mn[0], mn[1], mn[2]), max: Vec3::new(mx[0], mx[1], mx[2]) };
+        (b.center().ent(), b.size().ent(), b.half_size().ent())
+    } else {
+        let b = Aabr { min: Vec2::new(mn[0], mn[1]), max: Vec2::new(mx[0], mx[1]) };
+        (b.center().ent(), b.size().ent(), b.half_size().ent())
+    };
+    goal("law/size = max - min per axis", and((0..n).map(|i| eq(s[i], mx[i] - mn[i])).collect()));
+    goal("law/half_size = (max - min) / 2 per axis", and((0..n).map(|i| eq(h[i], (mx[i] - mn[i]) / two())).collect()));
+    goal("law/center = (min + max) / 2 per axis", and((0..n).map(|i| eq(c[i], (mn[i] + mx[i]) / two())).collect()));
+}
 pub fn register_c13(v: &mut Vec<Scenario>) {
+    for three in [false, true] {
+        let name = if three { "c13/int/aabb_measures" } else { "c13/int/aabr_measures" };
+        v.push(Scenario { name: name.to_string(), prop: "C13", tier: 0, funcs: vec!["Aabr::center", "Aabr::size", "Aabr::half_size", "Aabb::center", "Aabb::size", "Aabb::half_size"], sym: Box::new(move || box_measures_int::<SymIS>(three)), f64_: None, cn: None,
+            extra: vec![("i8", "(= M 127)", Box::new(move || box_measures_int::<i8>(three)) as crate::explore::Run), ("i32", "(= M 2147483647)", Box::new(move || box_measures_int::<i32>(three)) as crate::explore::Run)], max_paths: 4096, timeout: Some((10, 120)) });
+    }
     for three in [false, true] {
         let name = if three { "c13/int/rect3_center" } else { "c13/int/rect_center" };
         v.push(Scenario { name: name.to_string(), prop: "C13", tier: 0, funcs: vec!["Rect::center", "Rect3::center", "From<Rect> for Aabr", "Aabr::center"], sym: Box::new(move || rect_center_int::<SymIS>(three)), f64_: None, cn: None,
